@@ -65,6 +65,7 @@ var c09Progs = []string{
 	"(let ((l '(3 1 2))) (list (first l) (stable-sort (lambda (a b) (< a b)) (concat 'list l))))",
 	"(let ((l ''(3 1 2))) (list (first (eval l)) (stable-sort (lambda (a b) (< a b)) (eval l))))",
 	"(defun lit () '(3 1 2)) (list (first (lit)) (stable-sort (lambda (a b) (< a b)) (append 'vector (lit))) (first (lit)))",
+	"(defun sort-args (&rest xs) (stable-sort (lambda (a b) (< a b)) xs)) (let ((l '(3 1 2))) (list (first l) (apply sort-args l) (unpack sort-args l) (first l)))",
 }
 
 // every operator and macro that takes the program's own nodes apart and rebuilds forms from them
